@@ -798,3 +798,71 @@ def packetfifo_geometry(ctx, rid):
             ("param_layout" if layout == "payload_layout" else "payload_layout") not in norm(d0.keywords[0].value)
         ctx.ob(rid, PACKET, "PacketFIFO", f"each store carries its own layout ({what})", ok,
                "" if ok else f"{norm(d0) if d0 is not None else None}", init)
+
+
+def shared_bus_idle_zero(ctx, rid, fx, cls, info, targets, tag="", discharged=()):
+    """A master on an OR-combined bus (the CSR bus has no arbiter: `InterconnectShared` ORs every master's adr / we / re / dat_w)
+    contributes zeros while it has no access in hand.  Per target line driven inside FSM `info` (or outside any FSM):
+      (a) no driver with a non-constant value is active in the FSM's reset state whatever the inputs are (comb or clocked);
+      (b) a clocked line is zero whenever the reset state is entered: abstract dataflow {zero, maybe non-zero} over the state graph.
+    `discharged`: lines whose idle value the interconnect masks itself (term gated by the master's own strobe)."""
+    rs = info.reset_state or info.first_state
+    rs_atom = q.state_atom((info.id, rs))
+    n = 0
+    for t in targets:
+        if t in discharged:
+            ctx.ob(rid, fx.rel, cls, f"{tag}{t}: zero while idle (masked by the interconnect)", True, "")
+            n += 1
+            continue
+        ds = [a for a in fx.find(target=t) if (a.state is None or a.state[0] == info.id) and q.compatible(a.pyguards, info.pyguards)]
+        if not ds:
+            continue
+        # (a)
+        bad = None
+        for a in ds:
+            if a.v == "0":
+                continue
+            G = q.Inliner(fx, a).gformula(a)
+            if a.state is None and B.entails(B.T, G) or a.state is not None and B.entails(rs_atom, G):
+                bad = a
+                break
+        ok = bad is None
+        detail = ""
+        line = ds[0].line
+        if bad is not None:
+            detail = (f"`{bad.t} <= {short(bad.v, 50)}` is driven in the idle state {rs} whatever the inputs are: the other masters' "
+                      f"accesses are OR-ed with it on the shared bus")
+            line = bad.line
+        # (b)
+        clocked = [a for a in ds if a.domain != "comb"]
+        if ok and clocked:
+            states = sorted({tr.src for tr in fx.trans if tr.fsm == info.id} | {tr.dst for tr in fx.trans if tr.fsm == info.id})
+            val = {s: "Z" if s == rs else None for s in states}      # value at entry; None = not reached yet
+            changed = True
+            it = 0
+            while changed and it < 50:
+                changed = False
+                it += 1
+                for tr in fx.trans:
+                    if tr.fsm != info.id or not q.compatible(tr.pyguards, info.pyguards) or val.get(tr.src) is None:
+                        continue
+                    Gt = B.guard_formula(tr.guards)
+                    here = [a for a in clocked if a.state and a.state[1] == tr.src]
+                    out = val[tr.src]
+                    zero_always = any(a.v == "0" and B.entails(Gt, a.eff()) for a in here)
+                    nonzero_may = any(a.v != "0" and not B.entails(Gt, B.Not(a.eff())) for a in here)
+                    if nonzero_may:
+                        out = "N"
+                    elif zero_always:
+                        out = "Z"
+                    new = "N" if "N" in (out, val.get(tr.dst)) else "Z"
+                    if val.get(tr.dst) != new:
+                        val[tr.dst] = new
+                        changed = True
+            if val.get(rs) != "Z":
+                ok = False
+                detail = (f"{t} can still hold the value of the last access when {rs} is entered (no state on the way back clears it): "
+                          f"an idle master keeps it on the OR-combined bus")
+        ctx.ob(rid, fx.rel, cls, f"{tag}{t}: zero while idle", ok, detail, line)
+        n += 1
+    return n
